@@ -279,6 +279,11 @@ def constructExec (ty : ITy) (vals : List Val) : Except Err Val :=
   | .mat _ _ _ =>
     if vals.all (fun v => match v with | .list _ => true | _ => false) then .ok (.list vals)
     else .error (.internal "construct-matrix-from-non-rows")
+  | .sc _ =>
+    -- `int(x)` / `float(x)`: the argument has already been converted by the inserted cast
+    match vals with
+    | [v] => .ok v
+    | _ => .error (.internal "construct-type")
   | _ => .error (.internal "construct-type")
 
 /-! ### One instruction -/
